@@ -1,8 +1,18 @@
 /* C02 - scalar multiplication entry points of elliptic_curve.h against the enumerated group.
  *
- * Build parameters: CURVE, CV_M, ENTRY, K_MAX / K2_MAX (largest scalar: the shape; every value below is
- * symbolic), K_BITS (capacity of the scalar bn), PT_BITS (capacity of caller's points), optional PT_FIX
- * (thorough tier splits the point index range: PT_LO <= i <= PT_HI) + liblcb configuration macros.
+ * Build parameters: CURVE, CV_M, ENTRY, K_MIN..K_MAX / L_MIN..L_MAX (scalar ranges), K_BITS (capacity of the
+ * scalar bn), PT_BITS (capacity of caller's points), PT_LO..PT_HI (point index range, default the whole group)
+ * + liblcb configuration macros.
+ *
+ * Two ways of quantifying over the scalars:
+ *   default      : the scalar is a solver variable all the way (used for the binary and precomputed-doubles
+ *                  methods, whose table index is the loop counter);
+ *   -DK_ENUM     : the solver variable IN.k selects one of the branches `k == c`, inside which the library runs
+ *                  with the constant c.  Needed for every table-driven method (sliding window, comb, JSF, NAF):
+ *                  they form `&table[f(scalar)]`, and CBMC 6.11 mis-resolves a pointer into an array of structs
+ *                  with a symbolic index once it is narrowed to a member array (reads come back unconstrained;
+ *                  [measured] 7-line reproducer).  The point operand, the stale coordinates and stale digits stay
+ *                  symbolic inside every branch, all branches are in one formula, and a counterexample names k.
  *
  * Oracle: k * P_i = P_((k*i) mod NTOT);  k*G + l*P_j = P_((k*GIDX + l*j) mod NTOT), GIDX = CV_H (G = H*G0).
  */
@@ -14,6 +24,7 @@
 #define E_TWIN_BP	4	/* ec_point_twin_mult_bp(k, P, l, curve, res)  (EC_PF_TWIN_MULT_ALGO) */
 #define E_CHK_SCALAR	5	/* ec_point_check_scalar_mult(P): n*P == O */
 #define E_FPX_ANY	6	/* ec_point_fpx_mult_precompute + ec_point_fpx_mult on an arbitrary point */
+#define E_TWIN_ANY	7	/* ec_point_twin_mult(P_i, k, P_j, l, curve, res): two arbitrary points */
 
 #ifndef PT_BITS
 #define PT_BITS CV_M
@@ -21,11 +32,17 @@
 #ifndef K_BITS
 #define K_BITS EC_CURVE_CALC_BITS_DBL(&CV)
 #endif
+#ifndef K_MIN
+#define K_MIN 0
+#endif
 #ifndef K_MAX
 #define K_MAX CV_N
 #endif
-#ifndef K2_MAX
-#define K2_MAX K_MAX
+#ifndef L_MIN
+#define L_MIN 0
+#endif
+#ifndef L_MAX
+#define L_MAX CV_N
 #endif
 #ifndef PT_LO
 #define PT_LO 0
@@ -33,37 +50,33 @@
 #ifndef PT_HI
 #define PT_HI (CV_NTOT - 1)
 #endif
+#define TWO_SCALARS (ENTRY == E_TWIN_BP || ENTRY == E_TWIN_ANY)
 
 struct in_s {
-	uint8_t i;		/* table index of the point operand */
+	uint8_t i, j;		/* table indices of the point operands */
 	uint16_t k, l;		/* scalars */
 	uint8_t gx, gy;		/* stale coordinates of an operand at infinity */
 	uint8_t rx, ry;		/* stale content of the result object */
 	uint8_t garbage;	/* value of stale digits written by the stubs */
+	ENV_PTOPS_IN		/* (ladder-stub builds) representatives chosen by the point-operation stubs */
 };
 #include "verif_in.h"
 
-static void body(void) {
-	sb_garbage = IN.garbage;
-	unsigned i = IN.i, want;
-	uint32_t k = IN.k, l = IN.l;
+#if ENTRY == E_FPX_ANY && EC_PF_FXP_MULT_ALGO != EC_PF_FXP_MULT_ALGO_BIN
+static ec_pt_fpx_mult_data_t fpx_md;
+#endif
+
+static void
+run(unsigned i, unsigned j, uint32_t k, uint32_t l) {
+	unsigned want;
 	int r;
 	bn_t bk, bl;
-	ec_point_t pt, res;
+	ec_point_t pt, pt2, res;
 
-	V_ASSUME(i >= PT_LO && i <= PT_HI && i < CV_NTOT);
-	V_ASSUME(k <= K_MAX && l <= K2_MAX);
-#ifdef K_MIN
-	V_ASSUME(k >= K_MIN);
-#endif
-	V_ASSUME(IN.gx < CV_P && IN.gy < CV_P && IN.rx < CV_P && IN.ry < CV_P);
-	r = env_curve_init();
-	V_ASSERT(0 == r, "curve constructor succeeds");
-	if (0 != r)
-		return;
 	env_bn_set(&bk, K_BITS, k);
 	env_bn_set(&bl, K_BITS, l);
 	env_point(&pt, i, PT_BITS, IN.gx, IN.gy);
+	env_point(&pt2, j, PT_BITS, IN.gy, IN.gx);
 	/* result object as a caller has it: initialised, possibly used before */
 	r = ec_point_init(&res, PT_BITS);
 	V_ASSUME(0 == r);
@@ -92,6 +105,13 @@ static void body(void) {
 	V_ASSERT(env_point_is(&res, want), "k*G + l*P is the table's point");
 	V_ASSERT(env_point_is(&pt, i), "point operand unchanged");
 	if (0 != want && 0 != i && ((k * CV_H) % CV_NTOT) == ((l * i) % CV_NTOT)) V_WITNESS("k*G == l*P (final doubling)");
+#elif ENTRY == E_TWIN_ANY
+	r = ec_point_twin_mult(&pt, &bk, &pt2, &bl, &CV, &res);
+	want = (((k * i) + (l * j)) % CV_NTOT);
+	V_ASSERT(0 == r, "multiplication reports success");
+	V_ASSERT(env_point_is(&res, want), "k*P + l*Q is the table's point");
+	V_ASSERT(env_point_is(&pt, i) && env_point_is(&pt2, j), "point operands unchanged");
+	if (i == j && 0 != i) V_WITNESS("P == Q");
 #elif ENTRY == E_CHK_SCALAR
 	r = ec_point_check_scalar_mult(&pt, &CV);
 	want = ((CV_N * i) % CV_NTOT);
@@ -100,10 +120,9 @@ static void body(void) {
 	if (0 != r) V_WITNESS("point outside the subgroup");
 #elif ENTRY == E_FPX_ANY
 #if EC_PF_FXP_MULT_ALGO != EC_PF_FXP_MULT_ALGO_BIN
-	static ec_pt_fpx_mult_data_t md;
-	r = ec_point_fpx_mult_precompute(EC_PF_FXP_MULT_WIN_BITS, &pt, &CV, &md);
+	r = ec_point_fpx_mult_precompute(EC_PF_FXP_MULT_WIN_BITS, &pt, &CV, &fpx_md);
 	V_ASSERT(0 == r, "precomputation reports success");
-	r = ec_point_fpx_mult(&res, &md, &bk, &CV);
+	r = ec_point_fpx_mult(&res, &fpx_md, &bk, &CV);
 #else
 	r = ec_point_assign(&res, &pt);
 	r = ec_point_bin_mult(&res, &bk, &CV);
@@ -122,6 +141,53 @@ static void body(void) {
 	if (k > 255) V_WITNESS("scalar wider than the curve");
 	if (0 == i) V_WITNESS("point at infinity");
 	if (0 != want) V_WITNESS("finite result");
+}
+
+#ifdef K_ENUM
+/* only the two enumeration loops live here: enum_scalars.0 = inner (l), enum_scalars.1 = outer (k) */
+static void
+enum_scalars(unsigned i, unsigned j) {
+	for (uint32_t kk = K_MIN; kk <= K_MAX; kk ++) {
+#if TWO_SCALARS
+		for (uint32_t ll = L_MIN; ll <= L_MAX; ll ++) {
+			if (IN.k == kk && IN.l == ll)
+				run(i, j, kk, ll);
+		}
+#else
+		if (IN.k == kk)
+			run(i, j, kk, 0);
+#endif
+	}
+}
+#endif
+
+static void
+body(void) {
+	unsigned i = IN.i, j = IN.j;
+	int r;
+
+	sb_garbage = IN.garbage;
+	ENV_PTOPS_INIT();
+	V_ASSUME(i >= PT_LO && i <= PT_HI && i < CV_NTOT && j < CV_NTOT);
+	V_ASSUME(IN.k >= K_MIN && IN.k <= K_MAX);
+#if TWO_SCALARS
+	V_ASSUME(IN.l >= L_MIN && IN.l <= L_MAX);
+#else
+	V_ASSUME(0 == IN.l);
+#endif
+#if ENTRY != E_TWIN_ANY
+	V_ASSUME(0 == j);
+#endif
+	V_ASSUME(IN.gx < CV_P && IN.gy < CV_P && IN.rx < CV_P && IN.ry < CV_P);
+	r = env_curve_init();
+	V_ASSERT(0 == r, "curve constructor succeeds");
+	if (0 != r)
+		return;
+#ifdef K_ENUM
+	enum_scalars(i, j);
+#else
+	run(i, j, IN.k, IN.l);
+#endif
 }
 
 void harness(void) {
